@@ -142,6 +142,7 @@ pub const RULES: &[(&str, &[&str])] = &[
     ("lifecycle.synthetic_not_delivered", &["C14"]),
     ("lifecycle.iterator", &["C14"]),
     ("lifecycle.synthetic_timeout", &["C14", "C12"]),
+    ("wait.livelock", &["C11", "C12", "C02"]),
 ];
 
 pub fn props_of(rule: &str) -> Vec<String> {
